@@ -82,7 +82,7 @@ pub fn cells() -> Vec<Cell> {
         }
         for contents in content_products(&levels) {
             let mut ops: Vec<(MOp, u8)> = vec![(MOp::Get, 0)];
-            for pop in [1u8, 2, 3, 4] {
+            for pop in [1u8, 2, 3, 4, 5] {
                 ops.push((MOp::Ensure, pop));
                 for a in [Act::Accept, Act::Promote, Act::Replace] {
                     ops.push((MOp::Gou(a), pop));
